@@ -1282,10 +1282,10 @@ condexpr(struct scope *s)
 	int vlw = (int)bitfieldwidth(l) == -1 ? 0 : (int)bitfieldwidth(l), vrw = (int)bitfieldwidth(r) == -1 ? 0 : (int)bitfieldwidth(r);
 	struct type *vlt = lt, *vrt = rt;  /* lt/rt are overwritten with the pointees in the pointer case */
 #endif
-	if (lt == rt) {
-		t = lt;
-	} else if (lt->prop & PROPARITH && rt->prop & PROPARITH) {
+	if (lt->prop & PROPARITH && rt->prop & PROPARITH) {
 		t = commonreal(&l, &r);
+	} else if (lt == rt) {
+		t = lt;
 	} else if (lt == &typevoid && rt == &typevoid) {
 		t = &typevoid;
 	} else {
